@@ -4,6 +4,7 @@ From Coq Require Import ZArith List Bool Lia ZifyBool.
 From V Require Import C15BitFmt C15Ebsp C15H264 C15BitFmtProofs C15EbspProofs.
 Import ListNotations.
 Open Scope Z_scope.
+Opaque K.
 
 Ltac ref :=
   repeat first
@@ -70,7 +71,7 @@ Lemma h264_values_agree : forall a,
 Proof.
   intros a H. unfold h264_ranges in H. apply andb_prop in H. destruct H as [Ht Hs].
   destruct (crop_units_agree a Hs) as [Hx Hy].
-  repeat split.
+  split; [|split; [|split]].
   - unfold go_width, spec_width, pic_width_samples. rewrite Hx. reflexivity.
   - unfold go_height, spec_height, frame_height_samples. rewrite Hy. reflexivity.
   - unfold go_fps, spec_fps.
@@ -79,6 +80,7 @@ Proof.
       replace (0 <? get a k_num_units_in_tick) with true by lia. cbn [andb].
       rewrite Z.mod_small by lia. do 2 f_equal. lia.
     + replace (get a k_num_units_in_tick =? 0) with true by lia. reflexivity.
+  - unfold go_fixed, spec_fixed. reflexivity.
 Qed.
 
 (* ---------------------------------------------------------------- the decoder on an encoded record *)
@@ -165,7 +167,7 @@ Proof.
       with (option_map (fun p : bits * env => (h264_ranges (snd p), spec_width (snd p), go_width_d28 (snd p), go_width (snd p)))
                        (emit std_h264_sps rec_d28 env0)) by (rewrite E; reflexivity).
     vm_compute. reflexivity. }
-  inversion H. repeat split; auto.
+  inversion H. split; [|split; [|split]]; auto.
 Qed.
 
 (* a scaling list that ends early (nextScale = 0): with ReadSe = 0 the old decoder keeps reading *)
